@@ -117,7 +117,7 @@ def run(ctx):
                 ctx.violation("resumed invocation reused a log file name", dict(rows=res2["rows"]))
             kinds["resumed"] = kinds.get("resumed", 0) + 1
     # ---- a second invocation while the first one runs
-    for t in range(ctx.n(3, 40)):
+    for t in range(ctx.n(4, 40)):
         root = os.path.join(ctx.scratch, "second%d" % t)
         shutil.rmtree(root, ignore_errors=True)
         os.makedirs(root)
@@ -129,9 +129,15 @@ def run(ctx):
             failing = dict(steps=[("a", False, 0, 3), ("b", False, 0, 0)], skip=[], cmdline_skip=[], ncpu=2)
             r0 = cr.run(failing, root=root, keep_root=True)
             other = r0["builddir"]
-            if other:
+            if other and t % 4 == 3:
+                # the tenth invocation of the day runs while the first one is resumed: <date>.1 is a
+                # prefix of <date>.10
+                for i in range(2, 10):
+                    os.makedirs(os.path.join(root, os.path.basename(other)[:-1] + str(i), "tmp"))
+            elif other:
                 os.rename(other, os.path.join(root, "2001-01-01.1"))
                 other = os.path.join(root, "2001-01-01.1")
+            if other:
                 for f in ("probe.log", "hook.log", "mail.log"):
                     if os.path.exists(os.path.join(root, f)):
                         os.unlink(os.path.join(root, f))
